@@ -296,6 +296,50 @@ func init() {
 		return vx.RunSched(c, sc, nil)
 	}})
 
+	// a write that fails without reaching the wire (write k of `msgs`, every k; message sizes chosen
+	// from a small menu) must not disturb later writes: the reader gets exactly the messages whose Write
+	// succeeded, each whole, in order
+	vx.Register(&vx.Scenario{Name: "tls.writefault", Prop: "C05", Run: func(c *vx.Ctx) *vx.Report {
+		nm := c.PI("msgs", 3)
+		sizes := []int{1, 5, 40}
+		sc := &vrt.Scenario{
+			Opt: vrt.Options{Delay: true, PoolRecycle: c.P("pool", "recycle") == "recycle"},
+			Main: func() {
+				fail := vrt.Choose(nm, "failing-write")
+				fc := &faultWriteConn{failAt: fail}
+				w := NewTLSConn(fc)
+				var want [][]byte
+				for k := 0; k < nm; k++ {
+					m := c05Msg(k, sizes[vrt.Choose(len(sizes), "size")])
+					n, err := w.Write(m)
+					if k == fail {
+						if err == nil {
+							vrt.Fail("harness", "the failing write reported success")
+						}
+						continue
+					}
+					if err != nil || n != len(m) {
+						vrt.Fail("one-write-one-read", "Write %d (%d bytes) after a failed write returned %d, %v", k, len(m), n, err)
+					}
+					want = append(want, m)
+				}
+				r := NewTLSConn(&scriptConn{stream: fc.wire})
+				buf := make([]byte, 4096)
+				for i, m := range want {
+					k, err := r.Read(buf)
+					if err != nil || !bytes.Equal(buf[:k], m) {
+						vrt.Fail("one-write-one-read", "write %d of %d failed without reaching the wire; read %d of the later stream returned %d bytes % x, %v - the message written was % x", fail, nm, i, k, trunc5(buf[:k]), err, trunc5(m))
+					}
+				}
+				if k, err := r.Read(buf); err == nil {
+					vrt.Fail("one-write-one-read", "an extra message of %d bytes was read", k)
+				}
+				vrt.Observe("ok")
+			},
+		}
+		return vx.RunSched(c, sc, nil)
+	}})
+
 	// WebSocketConn: messages of several sizes through a gorilla connection pair established over an
 	// in-memory pipe, the byte stream cut at every position; and concurrent writers
 	vx.Register(&vx.Scenario{Name: "ws.segment", Prop: "C05", Run: func(c *vx.Ctx) *vx.Report {
@@ -460,10 +504,13 @@ func init() {
 			{Scenario: "tls.large", Params: vx.P("size", "16384"), Weight: 8},
 			{Scenario: "tls.large", Params: vx.P("size", "16640"), Weight: 8},
 			{Scenario: "tls.writers", Params: vx.P("writers", "2", "per", "2", "seg", "0"), Bound: -1, BudgetS: 100, Weight: 7},
+			{Scenario: "tls.writers", Params: vx.P("writers", "2", "per", "2", "seg", "0", "pool", "recycle"), Bound: -1, BudgetS: 100, Weight: 7},
 			{Scenario: "tls.writers", Params: vx.P("writers", "3", "per", "1", "seg", "0"), Bound: -1, BudgetS: 100, Weight: 7},
 			{Scenario: "tls.writers", Params: vx.P("writers", "2", "per", "1", "seg", "1"), Bound: 2, BudgetS: 100, Weight: 7},
 			{Scenario: "ws.writers", Params: vx.P("writers", "2", "per", "1"), Bound: -1, BudgetS: 100, Weight: 6},
 			{Scenario: "ws.writers", Params: vx.P("writers", "2", "per", "2"), Bound: 2, BudgetS: 100, Weight: 7},
+			{Scenario: "tls.writefault", Params: vx.P("msgs", "3"), Bound: 0, BudgetS: 100, Weight: 2},
+			{Scenario: "mux.cutrecord", Params: vx.P("frames", "3", "plen", "7"), Bound: 0, BudgetS: 100, Weight: 2},
 			{Scenario: "ws.segment", Weight: 4},
 			{Scenario: "ws.segment", Params: vx.P("big", "1"), Weight: 6},
 		}
@@ -562,4 +609,29 @@ func wsAccept(key string) string {
 	h := sha1.New()
 	h.Write([]byte(key + "258EAFA5-E914-47DA-95CA-C5AB0DC85B11"))
 	return base64.StdEncoding.EncodeToString(h.Sum(nil))
+}
+
+// faultWriteConn records what is written, except that write number failAt fails without taking
+// anything.
+type faultWriteConn struct {
+	scriptConn
+	failAt, nw int
+	wire       []byte
+}
+
+func (f *faultWriteConn) Write(b []byte) (int, error) {
+	k := f.nw
+	f.nw++
+	if k == f.failAt {
+		return 0, errors.New("injected write failure")
+	}
+	f.wire = append(f.wire, b...)
+	return len(b), nil
+}
+
+func trunc5(b []byte) []byte {
+	if len(b) > 24 {
+		return b[:24]
+	}
+	return b
 }
